@@ -1,5 +1,5 @@
 """Per-property claims (source of MANIFEST.json, regenerate with bin/mkmanifest.py)."""
-SOURCE_COMMITS = ["7e146d4", "9424340", "a1f5d2c", "8e587e5", "5690cd1", "d545c2f", "62723dc", "8131b7f", "100c501", "28b899b", "5d5fcc0", "dc78639", "f3454e3", "e1a045f", "3bd7141", "68fba81", "1f4c606", "2772037", "fd3af25", "c78d510", "fee30d6", "82e3cd8", "4fbdbe2", "d4c0819", "1d2c566", "ec41efd"]   # fix: commits in /repo (no hook commits are needed)
+SOURCE_COMMITS = ["7e146d4", "9424340", "a1f5d2c", "8e587e5", "5690cd1", "d545c2f", "62723dc", "8131b7f", "100c501", "28b899b", "5d5fcc0", "dc78639", "f3454e3", "e1a045f", "3bd7141", "68fba81", "1f4c606", "2772037", "fd3af25", "c78d510", "fee30d6", "82e3cd8", "4fbdbe2", "d4c0819", "1d2c566", "ec41efd", "43144da"]   # fix: commits in /repo (no hook commits are needed)
 
 _NOTE = ("Trusted: PyVC (interpreter, VC generation), z3, the numpy/builtins stubs (assumed contracts of dependencies, listed in the "
          "evidence), floats treated as reals except in comparisons, unbounded ints, partial correctness. ")
